@@ -12,7 +12,9 @@ PROPS = {
                  "payload of an arm that ignores it, passed to a function that drops it, only cast, injected, dbg!-ed, "
                  "array element that is dropped, half-inspected pair) x random types to depth 2; (ii) G1 programs with up "
                  "to 8 witnesses; (iii) the shipped examples with their .wit/.args files and with the empty map. Each "
-                 "program x {debug off, on} x 4 witness maps (all-zero, all-max, 2 random). Judged per map that satisfy "
+                 "program x {debug off, on} x 7 witness maps (all-zero, all-max, 2 random, and three partial maps: without the last "
+                 "name, without the first, a random subset); (iv) the corpus programs that come with a witness file (a file "
+                 "named *_succeeds must also run successfully). Judged per map that satisfy "
                  "accepts: redeem CMR == commit CMR, root arrow 1->1, every witness node holds a value of the node's type "
                  "(M6 walker), encode_to_vec decodes, decoded CMR equal, BitMachine::exec returns (Ok or Err) without "
                  "panic. distinct_nontrivial = distinct (program, map, debug) triples that passed all of these."),
@@ -24,7 +26,9 @@ PROPS = {
         "min_evaluations": 20000,
         "min_counters": {"map_exact": 5000, "map_permuted": 2000, "mistyped_rejected": 10000, "map_extra_names": 5000, "map_missing_name": 3000, "events_witness": 20000},
         "rule": ("Programs with 0..8 witnesses of random types (some sharing a type), each bound and (80 %) probed down to "
-                 "its integer leaves against the primary value. Maps: exact (must be accepted, probes must pass, every "
+                 "its integer leaves against the primary value; in two thirds of the programs the probes skip components "
+                 "of tuples and arrays at random (30 % / 60 %), so that a value is inspected only in part and its witness "
+                 "node is pruned in the middle. Maps: exact (must be accepted, probes must pass, every "
                  "witness event must carry the supplied value), permuted among same-typed names and fresh random values "
                  "(accepted; verdict and witness events as the reference prescribes), extra names (accepted, ignored), one "
                  "missing name (accepted or rejected, never a panic or ill-typed node), a declared name supplied at "
@@ -49,10 +53,10 @@ PROPS = {
     },
     "C09": {
         "level": "exploration",
-        "budget": {"quick": 60, "thorough": 900},
+        "budget": {"quick": 150, "thorough": 900},
         "min_evaluations": 1500,
         "min_counters": {"loops_run": 1500, "iterations_observed": 100000},
-        "rule": ("Counter widths 1,2,4,8 (thorough: 16) x 3 loop bodies (order-recording accumulator acc*31+i+1, context "
+        "rule": ("Counter widths 1,2,4,8,16 (16: the quick tier runs 14 early exits below 3000 and one long run per loop body - exit at 32768, a random exit in the upper half, no exit; the thorough tier 16 selected exits) x 3 loop bodies (order-recording accumulator acc*31+i+1, context "
                  "tag check on every iteration, panic on any iteration after the exit point) x debug symbols off/on. The "
                  "exit iteration is supplied through the context witness, so one compiled program is run for EVERY exit "
                  "iteration 0..2^n-1 and for 'never' (width 16: 16 selected exits). Judged: verdict and full event log "
@@ -75,7 +79,9 @@ PROPS = {
                  "programs; the quick tier runs lengths <= 2 completely and a seed-chosen 1/40 slice of length 3), plus "
                  "random structures of depth 2-4. Every binding site binds a distinct constant; after every statement, in "
                  "every block, arm and function body, each bound name is probed on the real machine against the constant "
-                 "the reference resolver predicts. distinct_nontrivial = distinct program texts whose probes all passed."),
+                 "the reference resolver predicts - as a bare variable and, when both names are bound, also inside a tuple, "
+                 "an array or a nested tuple made of the bare variables (the use site must not matter); binding sites "
+                 "rotate through u8/u16/u32 so that a mixed-up level mistypes the program. distinct_nontrivial = distinct program texts whose probes all passed."),
         "assumptions": ["the lexical resolver is the harness's interpreter (block scoping, shadowing, right-hand side sees earlier bindings, function body sees only parameters)"],
     },
     "C12": {
@@ -89,7 +95,10 @@ PROPS = {
                  "and of a different-layout type; for 3 argument assignments x debug off/on the instantiated template and "
                  "the program with each param:: replaced by the literal are both executed on the same witness assignments "
                  "(each against the reference interpreter) and must agree; CMRs must be equal when all parameters are "
-                 "integers/Booleans. distinct_nontrivial = distinct (template, argument round, debug, witness) pairs."),
+                 "integers/Booleans. One case in ten is the parameter-reuse family: `param::X` written twice (both in main, or "
+                 "in main and in a function) at the same type (accepted, reported once), at two types of different shape and "
+                 "at two different types of the same layout (both rejected). distinct_nontrivial = distinct (template, "
+                 "argument round, debug, witness) pairs."),
         "assumptions": [ORDER_ASSUMPTION, JET_ASSUMPTION, PRUNE_ASSUMPTION],
     },
     "C14": {
@@ -104,7 +113,9 @@ PROPS = {
                  "Dynamic, per witness: plain and debug build give the same verdict; marker events occur exactly where "
                  "the reference prescribes with the prescribed arguments; call sites and markers stay in one-to-one "
                  "correspondence over all runs; TrackedCall::map_value on the observed arguments returns the right kind and, "
-                 "for dbg!/unwrap_left/unwrap_right, the source-level value. distinct_nontrivial = distinct (program, witness) pairs."),
+                 "for dbg!/unwrap_left/unwrap_right, the source-level value. One case in 40 is a straight-line main with 140-400 "
+                 "(thorough: -840) tracked call sites of every kind, all executed, so that marker identity is exercised beyond "
+                 "256 sites. distinct_nontrivial = distinct (program, witness) pairs."),
         "assumptions": [ORDER_ASSUMPTION, "marker values of which Simplicity pruned a part to unit are not judged for reconstruction",
                         "line comments are not placed inside call expressions (the symbol text joins the lines of a call)"],
     },
@@ -115,7 +126,10 @@ PROPS = {
         "min_counters": {"pruned_ok": 10000, "pruned_err": 10000},
         "rule": ("Environment-dependent programs (match on tx_lock_height / tx_is_final / num_outputs / version / lock_time / "
                  "current_sequence / tx_lock_distance / num_inputs with arms that assert witnesses, call check_lock_*, "
-                 "ignore a witness or panic) and G1 programs (incl. all jets), x 3 witness maps x 6 environments "
+                 "ignore a witness or panic), G1 programs (incl. all jets), the shared-witness family (one witness value bound to a "
+                 "variable and read in the two arms of a match on a Boolean witness, in full in one arm and in part in the other, "
+                 "so that pruning the untaken arm narrows the type of the shared value) and the corpus programs with a witness "
+                 "file, x 5 witness maps (incl. the empty map and a map with a missing name) x 6 environments "
                  "(lock time 0 / 1000 blocks / time, sequence MAX / 1000 / ENABLE_LOCKTIME_NO_RBF, fee output or not). "
                  "Oracle = the unpruned program executed under the same env. Judged: satisfy_with_env is Ok exactly when "
                  "the unpruned program succeeds; when Ok: CMR == commit CMR, root 1->1, witness nodes well-typed, encoding "
